@@ -178,6 +178,8 @@ def drive(task):
         if task["part"] == 3:
             for rules in cfgsrc.LONG_RHS:
                 yield from events({"kind": "cfg_rules", "rules": [list(r) for r in rules]}, task["n"] + 1)
+            for src in cfgsrc.nullable_order_srcs(random.Random(7), 12 if task["stride"] > 1 else 60):
+                yield from events(src, task["n"])
     else:
         rng = random.Random(task["seed"])
         for i in range(task["count"]):
